@@ -647,6 +647,8 @@ int regexec(regex_t *preg, char *s, int nsub, regmatch_t psub[], int flg)
 	rs.o = s;
 	while (*o) {
 		rs.s = o = s;
+		if (!*s && rs.flg & REG_NEWLINE && s > rs.o && s[-1] == '\n')
+			break;		/* no line follows the last newline */
 		s += uc_len(s);
 		if (!re_recmatch(re, &rs, flg & REG_NOSUB ? 0 : nsub, psub))
 			return 0;
